@@ -7,6 +7,9 @@ BASE_NOTE = ("Trusted base: the instrumenter's rewrite table (DESIGN.md 3.1), si
              "(fake clock, quiescence), the reference models/codecs written for this check, and the bounds of the tier. "
              "Sampling, not enumeration: a clean batch is evidence, not proof.")
 CHECKS = {
+ "C18": dict(engine="simrt", cat="exploration", ref="DESIGN.md 5/C18",
+   text="Seeded search over writer/reader/closer scripts and lock-granularity interleavings of the real backlog ring against an absolute-offset log model (interval semantics for in-flight writes), with lost-wake-up analysis at quiescence.",
+   tech="deterministic simulation: tape-driven baton scheduler over instrumented locks/conds + absolute-offset log model"),
  "C09": dict(engine="simrt", cat="exploration", ref="DESIGN.md 5/C09",
    text="Seeded search over writer/reader/closer scripts and lock-granularity interleavings of the real pipe code against a byte-queue model, with lost-wake-up analysis at quiescence; every failure is a minimised replayable tape.",
    tech="deterministic simulation: tape-driven baton scheduler over instrumented locks/conds + reference byte queue"),
